@@ -54,6 +54,7 @@ type Doc struct {
 	Keys [][]byte
 	Kids []*Doc
 	Off  int
+	End  int // offset of the last byte of the value
 	KeyOffs []int
 }
 
@@ -332,6 +333,15 @@ func SchemaStyled(e *Ex, st Style) []byte {
 
 // ---------- rendering documents
 
+// docBlanks, when set, yields the blanks written between two tokens.
+var docBlanks func() []byte
+
+func gap(o *out) {
+	if docBlanks != nil {
+		o.bs(docBlanks())
+	}
+}
+
 func renderDoc(o *out, d *Doc) {
 	d.Off = len(o.b)
 	switch d.Kind {
@@ -340,32 +350,54 @@ func renderDoc(o *out, d *Doc) {
 		d.KeyOffs = make([]int, len(d.Kids))
 		for i, k := range d.Kids {
 			if i > 0 {
+				gap(o)
 				o.s(",")
 			}
+			gap(o)
 			d.KeyOffs[i] = len(o.b)
 			o.s("\"")
 			o.bs(d.Keys[i])
-			o.s("\":")
+			o.s("\"")
+			gap(o)
+			o.s(":")
+			gap(o)
 			renderDoc(o, k)
 		}
+		gap(o)
 		o.s("}")
 	case KArr:
 		o.s("[")
 		for i, k := range d.Kids {
 			if i > 0 {
+				gap(o)
 				o.s(",")
 			}
+			gap(o)
 			renderDoc(o, k)
 		}
+		gap(o)
 		o.s("]")
 	default:
 		o.bs(d.Lit)
 	}
+	d.End = len(o.b) - 1
 }
 
 func JSON(d *Doc) []byte {
+	docBlanks = nil
 	var o out
 	renderDoc(&o, d)
+	return o.b
+}
+
+// JSONSpaced renders with blanks() between tokens (and around the value).
+func JSONSpaced(d *Doc, blanks func() []byte) []byte {
+	docBlanks = blanks
+	var o out
+	gap(&o)
+	renderDoc(&o, d)
+	gap(&o)
+	docBlanks = nil
 	return o.b
 }
 
